@@ -89,6 +89,8 @@ func vsToTLA(v VS) tla.Value {
 			f = append(f, tla.RecordField{Key: tla.MakeString(v.Keys[i]), Value: vsToTLA(e)})
 		}
 		return tla.MakeRecord(f)
+	case "d":
+		return tla.Value{}
 	}
 	panic("bad VS")
 }
@@ -306,6 +308,9 @@ func (a *archRT) body(li int) func(distsys.ArchetypeInterface) error {
 				}
 				if op.Await > 0 {
 					ok := v.IsTuple() && v.AsTuple().Len() > 0 && v.AsTuple().Get(0).IsNumber() && int(v.AsTuple().Get(0).AsNumber()) >= op.Await
+					if v.IsNumber() { // a mailbox length
+						ok = int(v.AsNumber()) >= op.Await
+					}
 					if !ok {
 						time.Sleep(300 * time.Microsecond)
 						return distsys.ErrCriticalSectionAborted
@@ -372,6 +377,8 @@ func renderElems(elems []trace.Element) []elemRec {
 	return out
 }
 
+func exitNow() { os.Exit(0) }
+
 func childMain() {
 	log.SetOutput(io.Discard)
 	if len(os.Args) < 4 {
@@ -409,6 +416,18 @@ func childMain() {
 		rt.log.emit(gtRec{K: "h", Ev: "exit", A: arch + "/" + self.String(), Err: errText(err)})
 	}
 
+	defer func() {
+		// a panic while setting up (typically: a port taken by another process meanwhile)
+		if e := recover(); e != nil {
+			rt.log.emit(gtRec{K: "panic", A: "setup", Msg: fmt.Sprint(e)})
+			finish(false)
+			os.Exit(0)
+		}
+	}()
+	if c.System != "" {
+		runSystem(&c, rt, finish)
+		return
+	}
 	n := len(c.Archs)
 	selfOf := func(i int) tla.Value { return vsToTLA(c.Archs[i].selfVS()) }
 	chans := make([]chan tla.Value, n)
@@ -455,6 +474,13 @@ func childMain() {
 		}
 		net := resources.NewTCPMailboxes(addrFn(i, false), mbOpts...)
 		rnet := resources.NewRelaxedMailboxes(addrFn(i, true), mbOpts...)
+		// start listening now (mailboxes are realised lazily on first Index; generated systems begin by reading
+		// their own mailbox, ours may not)
+		for _, mb := range []*resources.Mailboxes{net, rnet} {
+			if _, err := mb.Index(distsys.ArchetypeInterface{}, selfOf(i)); err != nil {
+				panic(err)
+			}
+		}
 		cfg := []distsys.MPCalContextConfigFn{
 			wrap("net", net), wrap("nlen", resources.NewMailboxesLength(net)),
 			wrap("rnet", rnet), wrap("rlen", resources.NewMailboxesLength(rnet)),
